@@ -16,6 +16,12 @@ import (
 // The given value must conform to the given type, or an error will
 // be returned.
 func Marshal(val cty.Value, ty cty.Type) ([]byte, error) {
+	if val.ContainsMarked() {
+		// A conversion below might drop the marked part of the value, and
+		// then we would accept a value that must not be serialized.
+		return nil, cty.Path(nil).NewErrorf("value has marks, so it cannot be serialized")
+	}
+
 	errs := val.Type().TestConformance(ty)
 	if errs != nil {
 		// Attempt a conversion
